@@ -142,7 +142,7 @@ _logsink = []
 
 # a request that does not finish is a finding, not a hang of the harness: interrupt it
 import signal  # noqa: E402
-REQUEST_TIME_LIMIT = float(os.environ.get("VERIF_REQUEST_TIME_LIMIT", "30"))
+REQUEST_TIME_LIMIT = float(os.environ.get("VERIF_REQUEST_TIME_LIMIT", "10"))
 
 
 class RequestTimeLimit(BaseException):
@@ -332,10 +332,19 @@ def op_world(job):
             os.chdir(d)
         w.configure()
         res = []
+        hangs = 0
         for r in job["requests"]:
             if r.get("reset_lazies"):
                 reset_lazies()
-            res.append(serve_once(w.config, s2b(r["data"]), tls=r.get("tls", False), trace=r.get("trace", False)))
+            if hangs >= 3:
+                # three requests already ran into the time limit: do not wait for every further one
+                res.append({"out": "", "log": [], "exc": "NotServed: skipped after repeated time-limit hits", "trace": [] if r.get("trace") else None,
+                            "secs": 0.0})
+                continue
+            o = serve_once(w.config, s2b(r["data"]), tls=r.get("tls", False), trace=r.get("trace", False))
+            if o["exc"] and o["exc"].startswith("RequestTimeLimit"):
+                hangs += 1
+            res.append(o)
         return {"root": w.root, "parent": w.parent, "results": res}
     finally:
         os.chdir(cwd0)
